@@ -322,7 +322,7 @@ let register (reg : string -> (Sx.t list -> Sx.t) -> unit) : unit =
       | _ -> raise (Bad "nonce_ok arity"));
   (* ---- Upstream ---- *)
   reg "upstream_route" (function
-      | [ups; mt; mpath; upath] ->
+      | [ups; mt; mpath; upath; probe] ->
         let l = rd_list (function
             | L [i; p; rw] -> { Upstream.u_id = rd_nat i; u_path = rd_str p; u_rewrite = rd_bool rw }
             | v -> raise (Bad ("bad upstream " ^ to_string v))) ups in
@@ -331,12 +331,12 @@ let register (reg : string -> (Sx.t list -> Sx.t) -> unit) : unit =
             | L [i; p; b] -> Hashtbl.replace tab (rd_int i, string_of_str (rd_str p)) (rd_bool b)
             | v -> raise (Bad ("bad match entry " ^ to_string v))) (match mt with L x -> x | _ -> []);
         (* regular expressions are matched on the decoded path; plain routes on the path the mux uses *)
-        let up = string_of_str (rd_str upath) and mp = string_of_str (rd_str mpath) in
+        let up = string_of_str (rd_str upath) and mp = string_of_str (rd_str mpath) and pr = string_of_str (rd_str probe) in
         let re i p =
           let ps = string_of_str p in
-          let key = if ps = mp then up else if ps = mp ^ "/" then up ^ "/" else ps in
+          let key = if ps = mp then up else if ps = pr then up ^ "/" else ps in
           (match Hashtbl.find_opt tab (int_of_nat i, key) with Some b -> b | None -> raise (Bad "regex oracle asked about an unlisted path")) in
-        (match Upstream.route re l (rd_str mpath) with
+        (match Upstream.route_gen re l (rd_str mpath) (rd_str upath) (rd_str probe) with
          | Upstream.ToUpstream i -> L [Y "to"; wr_nat i]
          | Upstream.RedirectSlash -> Y "redirect_slash"
          | Upstream.NotFound -> Y "notfound")
